@@ -1,0 +1,30 @@
+// SPDX-FileCopyrightText: 2023 The Pion community <https://pion.ly>
+// SPDX-License-Identifier: MIT
+
+//go:build verif
+// +build verif
+
+package stun
+
+import "sync"
+
+// VerifResetClientPools (build tag "verif" only) replaces the package-level
+// pools of client transactions and wait handlers by fresh ones, so that a
+// harness can start every scenario with pools no earlier scenario has touched.
+// Must not be called while any Client is in use.
+func VerifResetClientPools() {
+	clientTransactionPool = &sync.Pool{
+		New: func() interface{} {
+			return &clientTransaction{
+				raw: make([]byte, 1500),
+			}
+		},
+	}
+	callbackWaitHandlerPool = sync.Pool{
+		New: func() interface{} {
+			return &callbackWaitHandler{
+				cond: sync.NewCond(new(sync.Mutex)),
+			}
+		},
+	}
+}
